@@ -322,6 +322,49 @@ func TestVerifC18(t *testing.T) {
 			}
 		}
 	}
+	// ---- the same pages while the primary store does not answer: profiles then come from the offline cache and pages
+	// that say so (read-only notices, whose profile this is) are built on code paths nothing else reaches
+	if pl, _, err := env.HookDBs(); err != nil {
+		rep.Inconc("cannot interpose on the stores: %v", err)
+	} else {
+		gate := newVerifOutage()
+		verifSQL.SetHook(pl, gate.Hook)
+		env.SyncCache()
+		env.SetOutage(gate, true)
+		h := map[string]string{"Accept": "text/html", "User-Agent": "Mozilla/5.0 Chrome/100"}
+		for _, rt := range env.Routes {
+			path := rt.Pattern
+			if strings.HasPrefix(path, "/static") || strings.HasPrefix(path, "/custom_static") {
+				continue
+			}
+			for _, cr := range creds[1:] {
+				canary++
+				pls := c18Payloads(canary)
+				for pi, pl := range pls {
+					if strings.HasSuffix(path, "/") {
+						probe(path+"(primary store unreachable)", "GET", "<path-suffix>", pl, cr.name, verifReq{Method: "GET", Path: path + url.PathEscape(pl), Header: h, Cookies: cr.ck})
+						rep.Count("disconnected_store_probes", 1)
+					}
+					if pi < 2 {
+						for _, field := range []string{"user", "username", "login_destination", "name"} {
+							probe(path+"(primary store unreachable)", "GET", field, pl, cr.name, verifReq{Method: "GET", Path: path + "?" + url.Values{field: {pl}}.Encode(), Header: h, Cookies: cr.ck})
+							rep.Count("disconnected_store_probes", 1)
+						}
+					}
+				}
+			}
+		}
+		gate.mu.Lock()
+		nReads := gate.Reads
+		gate.mu.Unlock()
+		rep.Extra["disconnected_store_reads_served_from_cache"] = nReads
+		if nReads == 0 {
+			rep.Inconc("disconnected-store phase: no profile read reached the (closed) primary store")
+		}
+		env.SetOutage(gate, false)
+		verifSQL.SetHook(pl, nil)
+	}
+	rep.Floor("disconnected_store_probes", 200)
 	rep.Floor("html_pages_parsed", 300)
 	rep.Floor("html_pages_reflecting_canary", 20)
 	rep.Floor("hostile_username_sessions", 3)
